@@ -540,6 +540,12 @@ def range_writer(ctx, rule, parts=("R1", "R2", "R3")):
     if not ctx.check(set(roles.values()) == {"token", "idx"}, rule, fn, "roles", "the token loop variables are recognisable"):
         return
     tokens_iterated(ctx, rule, body)
+    # the buffers the writer fills start empty in every call (nothing carried over from an earlier map)
+    for l in sorted(body.var_names):
+        if body.locals[l]["mut"] and body.local_ty(l).startswith("alloc::vec::Vec<u8"):
+            ds = [sh for sh, _, _ in q.def_shapes(body, l, {})]
+            ctx.check(bool(ds) and all(d in ("Vec::new()", "Default::default()") or d.startswith("Vec::with_capacity(") for d in ds), rule, fn, "fresh:%s" % body.var_names[l],
+                      "the buffer `%s` is created empty in the call that fills it" % body.var_names[l], detail=str(ds))
     sets = q.calls_to(body, "BitSlice::set")
     if not ctx.check(len(sets) == 1, rule, fn, "bitset:one", "range flags are written at exactly one place"):
         return
